@@ -11,7 +11,7 @@ ID = "C04"
 READY = True
 LEVEL = "exploration"
 WORKERS = {"quick": 8, "thorough": 16}
-BUDGET = {"quick": 150, "thorough": 420}
+BUDGET = {"quick": 300, "thorough": 420}
 MIN_NONTRIVIAL = {"quick": 3000, "thorough": 60000}
 REQUIRED_HOOKS = ["compile", "evaluate:I", "evaluate:C", "render", "operator-sweep", "function-sweep"]
 RULE = (
